@@ -184,7 +184,7 @@ class C13(Check):
             yield " ".join([a, b, m]), "move-pos"
         # references obtained BEFORE a successful parse, a clash introduced through them afterwards, parse again;
         # a parser move (or none) at every gap; the first object's letter is set fluently or through its handle too
-        for g1, g2 in itertools.product(("*", hx("g1")), repeat=2):
+        for g1, g2 in itertools.product(("*", hx("g1"), hx("A2")), repeat=2):
             for k1, k2 in itertools.product(KINDS, repeat=2):
                 first = [S(g1, k1, "a", "s", "x")] + ([S(g1, k1, "a", "d")] if k1 != "t" else [])
                 second = [D(g2, k2, "b")] + ([S(g2, k2, "b", "d")] if k2 != "t" else [])
@@ -193,7 +193,7 @@ class C13(Check):
                            [H("HD", g2, "t", "no-a", "s", "x")],
                            [H("HS", g2, k2, "b", "s", "a"), H("HS", g2, k2, "b", "s", "x")]]   # no clash, then refused change
                 for cl in clashes:
-                    for m1, m2, m3 in itertools.product([None] + MOVES[:2], [None] + MOVES, [None, "MS"]):
+                    for m1, m2, m3 in itertools.product([None, "MA"], [None] + MOVES, [None, "MS"]):
                         seq = first + second + ([m1] if m1 else []) + ["P"] + ([m2] if m2 else []) + cl + ([m3] if m3 else []) + ["P"]
                         yield " ".join(seq), "held-after-parse"
                         # the same with the clash before the first parse, and with the fluent form after it
